@@ -282,11 +282,20 @@ class SourceFile:
 
     def find(self, selector):
         parts = [p.strip() for p in selector.split("::FN::")]
+        items = self.items
+        # `mod a/fn f`: an item inside an inline module
+        while selector.startswith("mod ") and "/" in selector:
+            head, selector = selector.split("/", 1)
+            mname = head[4:].strip()
+            mods = [it for it in items if it.kind == "mod" and it.name == mname and it.body_open is not None]
+            if len(mods) != 1:
+                raise ExtractError("lost-anchor", f"{self.rel}: `mod {mname}` matches {len(mods)} inline modules")
+            items = parse_items(self.src, self.m, mods[0].body_open + 1, mods[0].end - 1)
         kind, _, name = selector.partition(" ")
         name = name.strip()
         if kind == "impl":
             raise ExtractError("bad-template", "use find_impl")
-        cands = [it for it in self.items if it.kind == kind and it.name == name]
+        cands = [it for it in items if it.kind == kind and it.name == name]
         if len(cands) != 1:
             raise ExtractError("lost-anchor", f"{self.rel}: `{selector}` matches {len(cands)} top-level items")
         return cands[0]
